@@ -105,10 +105,11 @@ func decoys() (*tinkpb.Keyset, *tinkpb.EncryptedKeyset) {
 	return ks, enc
 }
 
-func (b *Blob) writer(format string, encrypted bool) (keyset.Writer, *bytes.Buffer) {
+// writer returns the keyset writer; arm (binary / JSON only) ends the phase in which the underlying writer fails.
+func (b *Blob) writer(format string, encrypted bool) (w keyset.Writer, buf *bytes.Buffer, arm func()) {
 	if format == "binary" || format == "json" {
 		f := &flaky{fail: true}
-		var w keyset.Writer = keyset.NewBinaryWriter(f)
+		w = keyset.NewBinaryWriter(f)
 		if format == "json" {
 			w = keyset.NewJSONWriter(f)
 		}
@@ -118,8 +119,7 @@ func (b *Blob) writer(format string, encrypted bool) (keyset.Writer, *bytes.Buff
 		} else {
 			w.Write(dk)
 		}
-		f.fail = false
-		return w, &f.buf
+		return w, &f.buf, func() { f.fail = false }
 	}
 	// The MemReaderWriter has been used before (another keyset was stored in the same place, in clear and encrypted
 	// form): what is read back after the next write must be what THAT write stored.
@@ -128,11 +128,11 @@ func (b *Blob) writer(format string, encrypted bool) (keyset.Writer, *bytes.Buff
 		KeyData: &tinkpb.KeyData{TypeUrl: "type.googleapis.com/verif.keycat.Decoy", Value: []byte{1, 2, 3}, KeyMaterialType: tinkpb.KeyData_SYMMETRIC}}}}
 	if !encrypted {
 		b.Mem.Write(decoy)
-		return b.Mem, nil
+		return b.Mem, nil, nil
 	}
 	b.Mem.WriteEncrypted(&tinkpb.EncryptedKeyset{EncryptedKeyset: []byte("decoy"), KeysetInfo: &tinkpb.KeysetInfo{PrimaryKeyId: 0x7E57,
 		KeyInfo: []*tinkpb.KeysetInfo_KeyInfo{{TypeUrl: "type.googleapis.com/verif.keycat.Decoy", KeyId: 0x7E57, Status: tinkpb.KeyStatusType_ENABLED, OutputPrefixType: tinkpb.OutputPrefixType_TINK}}}})
-	return b.Mem, nil
+	return b.Mem, nil, nil
 }
 
 func (b *Blob) reader(format string) keyset.Reader {
@@ -188,7 +188,16 @@ func IOs() []IO {
 // Write runs the writer half.
 func (io IO) Write(h *keyset.Handle) (*Blob, error) {
 	b := &Blob{}
-	w, buf := b.writer(io.Format, io.Kind == "encrypted")
+	w, buf, arm := b.writer(io.Format, io.Kind == "encrypted")
+	if arm != nil {
+		// HISTORY of the writer object: while its disk was full, the SAME handle was written through it in the CLEAR
+		// (the attempt failed, nothing reached the disk). Whatever the next - possibly encrypted - write stores must
+		// be that write's output only.
+		if h != nil {
+			_ = insecurecleartextkeyset.Write(h, w)
+		}
+		arm()
+	}
 	var err error
 	switch io.API {
 	case "insecurecleartextkeyset":
